@@ -10,10 +10,18 @@ ASSUMPTIONS = [
     "a handshake is identified by the packet id in the session's incoming store; deliveries the callback rejects are not counted",
     "C10_exactly_once and C10_pubrel_answered are refuted for the current tree (open findings KF-C10-a/b); the partial theorems carry the rest",
     "a second delivery is attributed to KF-C10-b only if a PUBCOMP write for that id failed after the first delivery and a new Client on the same session came before the second; a failing DeletePacket(Incoming) (session failure, outside C10's quantifier, injected for conformance only) is not judged",
-    "clause scanners over the observed event sequence (TraceScan.v: scan_ack, scan_hs/hs_twice, scan_noack) are proved to accept every trace the model accepts (scan_hs: its table equals the model's ghost table)",
+    "clause scanners over the observed event sequence (TraceScan.v: scan_ack, scan_hs/hs_twice, scan_noack, scan_close, scan_rel) are proved to accept every trace the model accepts (scan_hs: its table equals the model's ghost table)",
 ]
 
-CLAUSES = {}
+CLAUSES = {
+    "pubrec_always": "pubrec_always",
+    "no_ack_on_error": "no_ack_on_error",
+    "error_closes": "no_ack_on_error",       # second half of the clause: ... and the connection is closed
+    "qos01": "qos01",
+    "exactly_once": "exactly_once",
+    "pubrel_answered": "pubrel_answered",
+    "client_in_order": "client_in_order",
+}
 KNOWN = {
     "known/pubrel-unknown-id": ("pubrel_answered", r"pubrel_unknown_id_unanswered"),
     "known/callback-twice": ("exactly_once", r"callback_twice_after_failed_pubcomp"),
